@@ -46,4 +46,8 @@ CLAIMED['C14'] = ('DESIGN.md 4/C14', 'interp_array_to_approx_dt / interp_to_appr
     'rule is decided over the reals for every ratio incl. non-commensurate ones; retained samples, subsequence, range, '
     'duration and even-length clauses per path (L<=7); Fourier resampling through a model of SciPy\'s rfft/irfft '
     'branch on symbolic trigonometric polynomials.')
+CLAIMED['C19'] = ('DESIGN.md 4/C19', 'calc_surface_energy / get_time_shift_motions / calc_cum_abs_surface_energy executed on symbolic '
+    'records and symbolic reduction factors (SciPy cumulative_trapezoid(axis=1) for real, np.interp model for '
+    'fractional delays) and compared cell by cell with an oracle written from the shifted-wave definition; shifting '
+    'and joining helpers placed exactly; n<=5, stated travel-time/option/shift-vector sets.')
 NOT_APPLICABLE = {}
